@@ -626,6 +626,80 @@ func worldRoutes(w *World) {
 		}
 	}
 
+	// handoverPending: a route changes hands while a request for it is still waiting for a work connection of the old
+	// owner, which hands that connection in late - after it has given the route up and somebody else has taken it.
+	// What becomes of the waiting request is open; every request sent afterwards belongs to the new owner.
+	handN := 0
+	handoverPending := func() {
+		if len(clients) < 2 {
+			return
+		}
+		handN++
+		a, b := clients[r.Intn(len(clients))], (*lcClient)(nil)
+		for _, c := range clients {
+			if c != a {
+				b = c
+			}
+		}
+		// two fresh routes of a: "warm" only serves to take a's pooled work connection away (and keep it, idle, under its
+		// own route), so that the request for "hand" really has to wait for a work connection
+		warmHost, handHost := fmt.Sprintf("warm%d.hand.test", handN), fmt.Sprintf("hand%d.hand.test", handN)
+		warm := &route{name: fmt.Sprintf("r%d", nextName), kind: "http", host: warmHost, owner: a}
+		hand := &route{name: fmt.Sprintf("r%d", nextName+1), kind: "http", host: handHost, owner: a}
+		nextName += 2
+		for _, x := range []*route{warm, hand} {
+			if rr, got := a.register(M{"proxy_name": x.name, "proxy_type": "http", "custom_domains": []string{x.host}}); !got || mstr(rr, "error") != "" {
+				viol("C06", "register", "free-route-refused", "fresh route %s refused: %v; history: %v", x.host, rr, history)
+				return
+			}
+			live = append(live, x)
+		}
+		w.Probe("routes.handover_with_pending_request")
+		hist("handover of %s (host %s) from %s to %s with a request pending", hand.name, hand.host, a.Name, b.Name)
+		a.smu.Lock()
+		a.WorkMode, a.LateBy = wmLate, 1500*time.Millisecond
+		a.smu.Unlock()
+		env.probeHTTP(warmHost, "/", 8*time.Second) // takes the pooled work connection; its replacement will be late
+		pending := make(chan struct{})
+		go func() { defer close(pending); env.probeHTTP(handHost, "/pending", 10*time.Second) }()
+		time.Sleep(300 * time.Millisecond)
+		a.CloseProxy(hand.name)
+		syncCtl(a)
+		removedAt[hand.id()] = -1 // (a request in flight at the removal may still arrive: not judged by the end-of-run count)
+		kept := live[:0]
+		for _, o := range live {
+			if o.id() != hand.id() {
+				kept = append(kept, o)
+			}
+		}
+		live = kept
+		nb := &route{name: fmt.Sprintf("r%d", nextName), kind: "http", host: handHost, owner: b}
+		nextName++
+		rr, got := b.register(M{"proxy_name": nb.name, "proxy_type": "http", "custom_domains": []string{nb.host}})
+		reset := func() {
+			<-pending
+			a.smu.Lock()
+			a.WorkMode = wmGood
+			a.smu.Unlock()
+		}
+		if !got || mstr(rr, "error") != "" {
+			viol("C06", "register", "free-route-refused", "route %s was closed by its owner (acknowledged) and then refused to another proxy: %v; history: %v", nb.host, rr, history)
+			reset()
+			return
+		}
+		live = append(live, nb)
+		reset()
+		time.Sleep(2 * time.Second)
+		w.Check("C06.requests-after-handover-go-to-new-owner")
+		for j := 0; j < 3; j++ {
+			sb, st, err := env.probeHTTP(nb.host, "/after", 8*time.Second)
+			if sb != nb.id() {
+				viol("C06", "route", "request-reached-former-owner-after-handover", "route %s went from %s to %s while a request was waiting for a work connection, which the former owner handed in late; request %d sent afterwards was served by %q (status %d, %v), want %s; history: %v",
+					nb.host, hand.id(), nb.id(), j+1, sb, st, err, nb.id(), history)
+				break
+			}
+		}
+	}
 	nops := w.KnobPick("nops", 12, 25, 50, 90)
 	for i := 0; i < nops; i++ {
 		for _, c := range clients {
@@ -638,7 +712,11 @@ func worldRoutes(w *World) {
 		case k < 5 || len(live) < 2:
 			register()
 		case k < 8:
-			unregister()
+			if r.Intn(4) == 0 {
+				handoverPending()
+			} else {
+				unregister()
+			}
 		case k < 17:
 			httpReq()
 		case k < 18:
@@ -663,7 +741,7 @@ func worldRoutes(w *World) {
 		sort.Strings(ns)
 		for _, n := range ns {
 			id := c.Name + "/" + n
-			if at, ok := removedAt[id]; ok {
+			if at, ok := removedAt[id]; ok && at >= 0 {
 				if now := seenCount(c, n); now > at {
 					viol("C06", "route", "request-reached-removed-route", "route %s saw %d request(s) after its removal had been acknowledged; history: %v", id, now-at, history)
 				}
